@@ -41,6 +41,42 @@ def check(run):
         sc.exp_results = [None]
         sc.exp_writes = []
         scs.append(sc); meta.append(("handshake-stall", h, 0, cut))
+    # silence ON CONNECT: the connection attempt itself is never answered (neither accepted nor refused) — at the very first
+    # connection (Feig::new), at a reconnect after a stall, several times in a row, mixed with refusals, and for the whole budget
+    for pattern in (["silent"], ["silent", "silent"], ["silent", "refused", "silent"], ["refused", "silent"], ["silent"] * 5, ["silent"] * 25,
+                    ["silent"] * 19, ["silent"] * 20, ["silent"] * 21):
+        for where in ("first", "reconnect"):
+            for opname in ("read_card", "begin", "configure"):
+                sc = cc.Scenario(S, {"rct": rng.choice([0, 1, 15, 255])})
+                if where == "first":
+                    sc.conns, sc.ends = [], []
+                    for k in pattern:
+                        sc.conns.append(k); sc.ends.append("S")
+                    sc.conns.append([]); sc.ends.append("S")
+                    sc.handshake()
+                    sc.exchange(S.sysinfo_req(), [S.abort(0x6c)])
+                else:
+                    sc.start()
+                    # the operation's request is written and never answered; then the attempts of the pattern; then a good terminal
+                    for k in pattern:
+                        sc.new_conn(refused=(k == "refused"), silent=(k == "silent"))
+                    sc.new_conn(); sc.handshake()
+                c = sc.cfg
+                if opname == "read_card":
+                    sc.ops.append("read_card")
+                    sc.exchange(S.read_card_req(c["rct"]), [S.status_info({0x27: 0, 0x06: {"uuid": "04a1b2c3"}})])
+                elif opname == "begin":
+                    sc.ops.append("begin:" + "tok".encode().hex())
+                    sc.exchange(S.reservation(c["cur"], c["amount"], "tok"), [S.status_info({0x27: 0, 0x87: 17}), S.completion()])
+                else:
+                    sc.ops.append("configure")
+                    sc.exchange(S.sysinfo_req(), [S.abort(0x6c)])
+                sc.ops.append("read_card")
+                sc.exchange(S.read_card_req(c["rct"]), [S.status_info({0x27: 0, 0x06: {"uuid": "04a1b2c3"}})])
+                sc.exp_results = [None, None]
+                sc.exp_writes = []
+                h = cc.History(S, {"rct": c["rct"]}); h.read_card()
+                scs.append(sc); meta.append(("connect-stall", h, len(pattern), 0))
     # (2) every configuration value of read_card_timeout, with a terminal that never answers the command
     for t in (range(256) if th else list(range(0, 256, 5)) + [1, 2, 253, 254, 255]):
         h = cc.History(S, {"rct": t}); h.read_card()
@@ -128,6 +164,8 @@ def check(run):
             # bound fixed by the retry budget and the per-packet timeout: per exchange 20 attempts x (2 s throttle + connect timeout + packet timeout)
             n_ex = max(1, sum(1 for e in h.exchanges if e.op == k))
             tmo = max((e.timeout for e in h.exchanges if e.op == k), default=60000)
+            if kind == "connect-stall":
+                n_ex, tmo = 6, 60000       # the bound of the theorem for ANY public operation (6 exchanges at most, 60 s packets)
             bound = n_ex * 20 * (2000 + 2 * tmo) + 60000
             if dt > bound:
                 ok = False
